@@ -242,7 +242,7 @@ pub fn run(env: &Env) -> i32 {
         });
     }
     for (name, focus, plant, n) in [("items-general", 0u8, 120u32, env.tier.n(4000, 50_000)), ("items-declarations", 1, 70, env.tier.n(4000, 50_000)), ("items-mutability", 2, 70, env.tier.n(4000, 50_000)), ("items-selfdestruct", 3, 60, env.tier.n(4000, 50_000))] {
-        let cfg = program::GenCfg { undecided: true, plant, focus, max_items: 6, max_members: 6, max_stmts: 3, ..Default::default() };
+        let cfg = program::GenCfg { undecided: true, plant, focus, max_items: 6, max_members: 6, max_stmts: 3, inherit_earlier: focus == 2 || focus == 0, ..Default::default() };
         tape_stream(env, &mut st, name, n, 1500, |tape, s| {
             let mut t = Tape::new(tape);
             let text = program::gen_program(&mut t, &cfg);
